@@ -566,3 +566,84 @@ def run_lorem(ctx, model):
         'word_count was drawn from the [min, max] of the header, common opening iff first copy, paragraphs verbatim and in order in '
         'the output, text-node shape for %d shape families, and C07 itself (nothing raised but the two parse errors).'
         % (len(HEADERS), len(TEMPLATES), len(CONFIGS), len(SHAPES)))
+
+
+# ---------------------------------------------------------------- C02: repeaters and numbering seen through lorem
+def c02_cases(ctx):
+    """`lorem$*N`: the counter goes into the NAME, so copy i is a paragraph of exactly (counter of copy i) words -- the
+    statement of C02 (N copies, `$` = i, `@M` start, `@-` countdown, maxRepeat) observed through the word counts."""
+    out = []
+    for n in (1, 2, 3, 4, 6):
+        for form, want in (('lorem$', lambda i, n: i), ('lorem$@3', lambda i, n: 3 + i - 1), ('lorem$@-', lambda i, n: n - i + 1),
+                           ('lorem$@-2', lambda i, n: 2 + n - i), ('loremru$', lambda i, n: i), ('lorem$-$', None)):
+            for limit in (None, 1, 2, n, n + 1):
+                copies = n if limit is None else min(n, limit)
+                cfg = {} if limit is None else {'maxRepeat': limit}
+                for shell in ('%s*%d', 'ul>%s*%d', '(%s)*%d'):
+                    if shell != '%s*%d' and limit is not None:
+                        continue
+                    if form == 'lorem$-$':
+                        counts = [(i, i) for i in range(1, copies + 1)]       # range [i, i]
+                    else:
+                        counts = [(want(i, n), want(i, n)) for i in range(1, copies + 1)]
+                    out.append((shell % (form, n), cfg, {'counts': counts, 'lang': 'ru' if 'ru' in form else 'latin'}))
+    return out
+
+
+def oracle_c02(abbr, cfg, meta, r, o):
+    if r[0] != 'ok':
+        return 'expand did not return a string: %r' % (r[:2],)
+    if len(o.paragraphs) != len(meta['counts']):
+        return '%d lorem copies, the statement gives %d' % (len(o.paragraphs), len(meta['counts']))
+    for k, (p, (lo, hi)) in enumerate(zip(o.paragraphs, meta['counts'])):
+        if p['range'] != (max(1, lo), max(1, hi)) or p['db'] != meta['lang']:
+            return 'copy %d: language %r, word count drawn from %r; the counter of the copy gives [%d, %d]' % (k + 1, p['db'], p['range'], lo, hi)
+        if p['common'] != (k == 0):
+            return 'copy %d: start_with_common = %r' % (k + 1, p['common'])
+    return oracle_paragraphs(r, o)
+
+
+def run_c02(ctx, model):
+    """Called by harness/props/c02.py."""
+    cases = c02_cases(ctx)
+    wires, idx, impl = [], [], []
+    for k, (abbr, cfg, meta) in enumerate(cases):
+        r, o = impl_expand_oracle(abbr, cfg)
+        impl.append(r)
+        ctx.count_eval()
+        ctx.cover('gen:lorem-counter')
+        ctx.nontrivial(('C02lorem', abbr, canon_cfg(cfg)))
+        bad = oracle_c02(abbr, cfg, meta, r, o)
+        if bad:
+            ctx.property_failure('C02lorem:%s|%s' % (abbr, canon_cfg(cfg)), 'C02 expand(%r, %s): %s' % (abbr, canon_cfg(cfg), bad),
+                                 {'component': 'C02lorem', 'abbr': abbr, 'config': cfg, 'meta': meta, 'draws': o.draws[:3000],
+                                  'impl': repr(r)[:300], 'why': bad})
+        if model is not None:
+            wires.append([2] + enc_config(cfg, o.draws) + enc_str(abbr))
+            idx.append(k)
+    dis = 0
+    for k, w in zip(idx, model.run(wires) if wires else []):
+        mo = decode_res(w, lambda r: r.str())
+        if mo != impl[k]:
+            dis += 1
+            if dis <= 5:
+                abbr, cfg, meta = cases[k]
+                ctx.say('DISAGREE C02 lorem %r cfg=%s\n  impl  %r\n  model %r' % (abbr, canon_cfg(cfg), str(impl[k])[:300], str(mo)[:300]))
+                ctx.broken.append({'kind': 'correspondence', 'file': 'markup-C02lorem', 'input': abbr, 'config': canon_cfg(cfg),
+                                   'impl': repr(impl[k])[:300], 'model': repr(mo)[:300]})
+    ctx.cov['correspondence']['markup_C02lorem(full output, counters in lorem names)'] = {'cases': len(wires), 'disagreements': dis}
+    ctx.cov['rule'] = ctx.cov.get('rule', '') + (
+        ' Lorem stream (harness/lorem_util.py): `lorem$*N`, `lorem$@M*N`, `lorem$@-*N`, `lorem$-$*N`, alone / under ul / in a group, '
+        'with and without maxRepeat: the counter goes into the node NAME, so copy i must be a paragraph whose word count was drawn from '
+        '[counter, counter] (observed at the paragraph() call under the deterministic randint oracle), N copies (min(N, limit) under a '
+        'limit), only the first one with the common opening; full output model = implementation with the same draws.')
+
+
+def replay_c02(rp):
+    r, o = impl_expand_oracle(rp['abbr'], rp['config'], draws=rp.get('draws') or [])
+    meta = rp['meta']
+    meta['counts'] = [tuple(c) for c in meta['counts']]
+    bad = oracle_c02(rp['abbr'], rp['config'], meta, r, o)
+    print('expand(%r, %s) -> %r' % (rp['abbr'], canon_cfg(rp['config']), r))
+    print('property %s' % ('FAILS: ' + bad if bad else 'holds on this input'))
+    return 1 if bad else 0
